@@ -88,3 +88,26 @@ package search
 //@   requires c != nil
 //@   modifies
 //@   ensures [missing-value-placement] base(v) == ite((c.desc != nil && deref(c.desc)) == (c.first != nil && deref(c.first)), base(highTerm), base(lowTerm))
+
+// ---------------------------------------------------------------------------
+// C16: a field's doc values reach the calculators once per hit, however often the field is named
+// (sort key + aggregation, two aggregations): the list handed to the index's document value reader
+// has no field twice and loses none
+// ---------------------------------------------------------------------------
+//@ func uniqueFields(fields) (rv)
+//@   props C16
+//@   modifies
+//@   ensures [no-field-twice] forall i int, j int :: (0 <= i && i < j && j < len(rv)) ==> rv[i] != rv[j]
+//@   ensures [no-field-lost] forall i int :: (0 <= i && i < len(fields)) ==> (exists j int :: 0 <= j && j < len(rv) && rv[j] == fields[i])
+//@   loop 1
+//@     invariant fresh(base(rv)) && seen != nil && fresh(seen) && len(rv) <= rangeindex + 1
+//@     invariant forall i int, j int :: (0 <= i && i < j && j < len(rv)) ==> rv[i] != rv[j]
+//@     invariant forall j int :: (0 <= j && j < len(rv)) ==> has(seen, rv[j])
+//@     invariant forall s string :: has(seen, s) ==> (exists j int :: 0 <= j && j < len(rv) && rv[j] == s)
+//@     invariant forall i int :: (0 <= i && i <= rangeindex) ==> has(seen, fields[i])
+
+//@ func Context.DocValueReaderForReader(r, fields) (dvr, err)
+//@   props C16
+//@   modifies *
+//@   at call DocumentValueReader: assert [each-field-is-asked-for-once] forall i int, j int :: (0 <= i && i < j && j < len(arg0)) ==> arg0[i] != arg0[j]
+//@   at call DocumentValueReader: assert [every-needed-field-is-asked-for] forall i int :: (0 <= i && i < len(fields)) ==> (exists j int :: 0 <= j && j < len(arg0) && arg0[j] == fields[i])
